@@ -24,7 +24,11 @@ TRaise      == IsEvent("raise") /\
                \/ (Ev.cls = "UnusedParametersError" /\ RaiseUnused)
                \/ (Ev.cls = "ValueError" /\ (RaiseMissing \/ RaiseOutputSupplied))
 
-Next == TBegin \/ TCall \/ TReturn \/ TReturnFull \/ TRaise
+(* a combination listed by arg_combinations(out) must be a valid cut: the evaluation is defined and every name is consulted *)
+TCombo      == IsEvent("combo") /\ phase = "idle" /\ ~PHas(Ev.kw, Ev.out)
+               /\ Defined(d, Ev.kw, Ev.out) /\ Surplus(d, Ev.kw, Ev.out) = {} /\ UNCHANGED cvars
+
+Next == TCombo \/ TBegin \/ TCall \/ TReturn \/ TReturnFull \/ TRaise
 Spec == Init /\ [][Next]_<<cvars, tid, l>>
 
 Track == IF l > TLCGet(tid) THEN TLCSet(tid, l) ELSE TRUE
